@@ -465,8 +465,8 @@ class Fn:
                 if op[0] == "rc":
                     steps.append(("other", r, place[1]))
                     return steps
-                steps.append(("via", ("use", op[1]), place[1]))
-                place = op[1]
+                steps.append(("via", ("use", op[1]), []))
+                place = [op[1][0], list(op[1][1]) + list(place[1])]
                 continue
             if rk in ("ref", "rawptr"):
                 steps.append(("via", (rk, r[2]), place[1]))
@@ -488,6 +488,22 @@ class Fn:
                 steps.append(("other", r, place[1]))
                 return steps
             if rk == "agg":
+                # a field read of a freshly built tuple/struct: continue with that component
+                projs = place[1]
+                i = 0
+                if projs and projs[0][0] == "dc":
+                    i = 1
+                if len(projs) > i and projs[i][0] == "f" and r[1].get("k") in ("tuple", "adt", "closure", "coroutine") and projs[i][1] < len(r[2]) \
+                        and not (r[1].get("k") == "adt" and len(r[1].get("fields", [])) != len(r[2])):
+                    op = r[2][projs[i][1]]
+                    rest = projs[i + 1:]
+                    if op[0] == "k":
+                        steps.append(("const", op[1], rest))
+                        return steps
+                    if op[0] in ("c", "m"):
+                        steps.append(("via", ("aggfield", op[1]), projs[: i + 1]))
+                        place = [op[1][0], list(op[1][1]) + list(rest)]
+                        continue
                 steps.append(("agg", r, place[1]))
                 return steps
             if rk == "bin":
